@@ -1,11 +1,12 @@
 (** C20 — evaluation of implementation traces.
     [mismatch c k] : the model (with the regenerated genesis facts [c]) does not reproduce what the
                      implementation did: export of the dumped state ≠ observed export, or InitGenesis of
-                     the observed export ≠ dumped imported state, or a raw namespace the model does not know.
+                     the observed export ≠ dumped imported state, or a raw namespace the model does not know,
+                     or the dumped state is not well-formed (the hypothesis of the theorems).
     [violates k]   : the property predicate is false on the OBSERVED round trip. *)
 From Coq Require Import List Bool Arith ZArith.
 Import ListNotations.
-Require Import Nib.C20.SMapDef Nib.C20.Model Nib.C20.Eqdec Nib.C20.Spec Nib.C20.Shape.
+Require Import Nib.C20.SMapDef Nib.C20.Model Nib.C20.Eqdec Nib.C20.Spec Nib.C20.Shape Nib.C20.WfB.
 
 Record case := {
   k_import_ok : bool;            (* InitChain of the fresh app did not panic *)
@@ -25,6 +26,7 @@ Definition ns_known (e : nat * nat * nat * nat) : bool :=
   match e with (st, ns, _, _) => existsb (fun x => (fst x =? st) && (snd x =? ns)) known_ns end.
 
 Definition mismatch (c : cfg) (k : case) : bool :=
+  negb (wf_appb (k_F k) (k_env1 k) (k_s1 k)) ||       (* a reachable state outside the theorems' hypotheses *)
   negb (opt_eqb app_gen_dec (export_app (k_env1 k) (k_s1 k)) (Some (k_e1 k))) ||
   (if k_import_ok k then
      negb (opt_eqb app_st_dec
